@@ -54,8 +54,37 @@ class _float(float):
 
     # There is no risk of accidentally equating ints and floats with different values, since the
     # hash equality is only a necessary, not a sufficient condition for equality.
+    # The shift must not be 1: CPython reserves the hash value -1 and silently replaces it by -2, so
+    # with a shift of 1 the hashes of -1.0 and -2.0 collide with those of -1 and -2 again.
     def __hash__(self):
-        return super().__hash__() + 1
+        return super().__hash__() + 2
+
+
+class _bool(int):
+    # True == 1 and False == 0 with identical hashes, so a plain dict cannot hold a bool and the
+    # equal int as two keys: the value inserted second would silently be filed under the first one
+    # and lose its type. bool cannot be subclassed, so bools are stored as instances of this int
+    # subclass with a shifted hash (same idea as _float) and converted back when keys are read.
+    def __hash__(self):
+        return super().__hash__() + 3
+
+
+def _wrap_key(key):
+    """Return the key under which a value is stored in a _TypedSetDefaultDict."""
+    if type(key) is float:
+        return _float(key)
+    if type(key) is bool:
+        return _bool(key)
+    return key
+
+
+def _unwrap_key(key):
+    """Invert _wrap_key."""
+    if type(key) is _float:
+        return float(key)
+    if type(key) is _bool:
+        return bool(key)
+    return key
 
 
 class _TypedSetDefaultDict(dict):
@@ -69,13 +98,13 @@ class _TypedSetDefaultDict(dict):
 
     def keys(self):
         for key in dict.keys(self):
-            yield float(key) if type(key) is _float else key
+            yield _unwrap_key(key)
 
     __iter__ = keys
 
     def items(self):
         for key, value in dict.items(self):
-            yield float(key) if type(key) is _float else key, value
+            yield _unwrap_key(key), value
 
     def __missing__(self, key):
         value = set()
@@ -83,13 +112,13 @@ class _TypedSetDefaultDict(dict):
         return value
 
     def __getitem__(self, key):
-        return dict.__getitem__(self, _float(key) if type(key) is float else key)
+        return dict.__getitem__(self, _wrap_key(key))
 
     def __setitem__(self, key, value):
-        return dict.__setitem__(self, _float(key) if type(key) is float else key, value)
+        return dict.__setitem__(self, _wrap_key(key), value)
 
     def __delitem__(self, key):
-        dict.__delitem__(self, _float(key) if type(key) is float else key)
+        dict.__delitem__(self, _wrap_key(key))
 
     def get(self, key, default=None):
         """Get the value for given key.
@@ -106,7 +135,7 @@ class _TypedSetDefaultDict(dict):
         The value for given key.
 
         """
-        return dict.get(self, _float(key) if type(key) is float else key, default)
+        return dict.get(self, _wrap_key(key), default)
 
 
 def _find_with_index_operator(index, op, argument):
@@ -371,7 +400,9 @@ class _SearchIndexer(dict):
             if isinstance(value, Number) and float(value).is_integer():
                 result_float = index.get(_float(value), set())
                 result_int = index.get(int(value), set())
-                return result_int.union(result_float)
+                # 0 == False and 1 == True: bools are stored separately from ints.
+                result_bool = index.get(bool(value), set()) if value in (0, 1) else set()
+                return result_int.union(result_float, result_bool)
             else:
                 return index.get(value, set())
 
